@@ -25,8 +25,8 @@ class C03(Prop):
         "count_agrees_memory", "missing_memory", "sound_peewee", "complete_peewee", "peewee_clip", "sorted_desc_peewee",
         "limit_peewee", "count_agrees_peewee")]
     WORKERS = 10
-    LEVEL_TEXT = "Lean 4 theorems on the read functions of the three backend models: soundness, completeness, order, limit, count, clipping"
-    LEVEL_NOTE = "trusts: Lean kernel; SQLite julianday/strftime arithmetic of the peewee range filter is a bounded-error parameter (compared tolerantly at window edges); differential tie"
+    LEVEL_TEXT = 'Lean 4 theorems on the read functions of the three backend models: sound_B, complete_B (complete_sqlite_partial: without a start bound the event must end at or after 1970; peewee: events up to 24 h, as the property says), sorted_desc_B, limit_B, count_agrees_B, peewee_clip, window_tolerance (the Bucket.get rounding costs at most 1 ms at either edge); models compared with the real backends on random windows (edges placed around event edges, epoch, several UTC offsets)'
+    LEVEL_NOTE = "trusts: Lean kernel + 3 standard axioms; SQLite's julianday/strftime arithmetic in the peewee range filter is a bounded-error parameter: reads within 1 ms of the window start are compared tolerantly"
     TECHNIQUE = "Lean 4 proof over read models + differential correspondence on windowed reads"
     RULE = (
         "buckets of 1..7 events on a 100 ms grid with sub-ms duration jitter (overlapping, nested, adjacent, zero-length, "
